@@ -36,6 +36,7 @@ func init() {
 		c19ErrorHandler(x)
 		c19ServeHTTP(x)
 		c19Writer(x)
+		c19Load(x)
 		return nil
 	})
 }
@@ -1648,4 +1649,180 @@ func c19Writer(x *X) {
 			return
 		}
 	}
+}
+
+var c19FiveFields = map[string]bool{"DialTimeout": true, "ResponseHeaderTimeout": true, "KeepAliveTimeout": true, "IdleConnTimeout": true, "MaxConn": true}
+
+// c19ConstInt evaluates an integer constant expression made of literals, time.<unit> and * + - ( ).
+func c19ConstInt(x *X, e ast.Expr) (int64, bool) {
+	switch v := e.(type) {
+	case *ast.ParenExpr:
+		return c19ConstInt(x, v.X)
+	case *ast.BasicLit:
+		if v.Kind == token.INT {
+			n, err := strconv.ParseInt(strings.ReplaceAll(v.Value, "_", ""), 0, 64)
+			return n, err == nil
+		}
+	case *ast.SelectorExpr:
+		if id, ok := v.X.(*ast.Ident); ok && id.Name == "time" {
+			switch v.Sel.Name {
+			case "Nanosecond":
+				return 1, true
+			case "Microsecond":
+				return 1000, true
+			case "Millisecond":
+				return 1000000, true
+			case "Second":
+				return 1000000000, true
+			case "Minute":
+				return 60000000000, true
+			case "Hour":
+				return 3600000000000, true
+			}
+		}
+	case *ast.UnaryExpr:
+		if n, ok := c19ConstInt(x, v.X); ok {
+			switch v.Op {
+			case token.SUB:
+				return -n, true
+			case token.ADD:
+				return n, true
+			}
+		}
+	case *ast.BinaryExpr:
+		a, ok1 := c19ConstInt(x, v.X)
+		b, ok2 := c19ConstInt(x, v.Y)
+		if ok1 && ok2 {
+			switch v.Op {
+			case token.MUL:
+				return a * b, true
+			case token.ADD:
+				return a + b, true
+			case token.SUB:
+				return a - b, true
+			}
+		}
+	}
+	return 0, false
+}
+
+// c19Load: what package config does to the five transport options apart from registering them as flags.
+//
+//	defaultFive           the values of the five fields in `defaultConfig`'s Proxy literal (absent = 0)
+//	configWritesToTheFive every statement of package config and package main that stores into
+//	                      `<x>.Proxy.<one of the five>` (assignment, op-assignment, ++/--) or takes its address
+//	                      anywhere but as the first argument of a flag registration `<f>.<Kind>Var(&…, "<name>", …)`
+//	fiveFlagNames         the flag names the five fields are registered under
+func c19Load(x *X) {
+	defaults := map[string]int64{}
+	unevaluated := []string{}
+	if e := x.valueSpec("config", "defaultConfig"); e != nil {
+		if lit, ok := c19StripAddr(e).(*ast.CompositeLit); ok {
+			for _, el := range lit.Elts {
+				kv, ok := el.(*ast.KeyValueExpr)
+				if !ok || x.src(kv.Key) != "Proxy" {
+					continue
+				}
+				pl, ok := kv.Value.(*ast.CompositeLit)
+				if !ok {
+					unevaluated = append(unevaluated, "Proxy is not a literal")
+					continue
+				}
+				for _, pel := range pl.Elts {
+					pkv, ok := pel.(*ast.KeyValueExpr)
+					if !ok {
+						unevaluated = append(unevaluated, "positional element")
+						continue
+					}
+					name := x.src(pkv.Key)
+					if !c19FiveFields[name] {
+						continue
+					}
+					if n, ok := c19ConstInt(x, pkv.Value); ok {
+						defaults[name] = n
+					} else {
+						unevaluated = append(unevaluated, name+" = "+x.src(pkv.Value))
+					}
+				}
+			}
+		} else {
+			unevaluated = append(unevaluated, "defaultConfig is not a literal")
+		}
+	}
+	var rows []string
+	for _, n := range []string{"DialTimeout", "ResponseHeaderTimeout", "KeepAliveTimeout", "IdleConnTimeout", "MaxConn"} {
+		rows = append(rows, fmt.Sprintf("(%s, %d)", leanStr(n), defaults[n]))
+	}
+	x.defRaw("def defaultFive : List (String × Int) := [" + strings.Join(rows, ", ") + "]")
+	x.defStrList("defaultFiveUnevaluated", unevaluated)
+
+	isFive := func(e ast.Expr) (string, bool) {
+		e = c19StripParen(e)
+		if _, f, ok := c19CfgField(e); ok && c19FiveFields[f] {
+			return f, true
+		}
+		return "", false
+	}
+	var writes, flagNames []string
+	for _, dir := range []string{"config", "."} {
+		label := dir
+		if dir == "." {
+			label = "main"
+		}
+		for _, f := range x.files(dir) {
+			registered := map[ast.Expr]bool{}
+			ast.Inspect(f, func(n ast.Node) bool {
+				c, ok := n.(*ast.CallExpr)
+				if !ok || len(c.Args) < 2 {
+					return true
+				}
+				sel, ok := c.Fun.(*ast.SelectorExpr)
+				if !ok || !strings.HasSuffix(sel.Sel.Name, "Var") {
+					return true
+				}
+				u, ok := c.Args[0].(*ast.UnaryExpr)
+				if !ok || u.Op != token.AND {
+					return true
+				}
+				if fld, ok := isFive(u.X); ok {
+					if name, ok := x.strLit(c.Args[1]); ok {
+						registered[u] = true
+						flagNames = append(flagNames, name+" -> "+sel.Sel.Name+" Proxy."+fld)
+					}
+				}
+				return true
+			})
+			ast.Inspect(f, func(n ast.Node) bool {
+				switch v := n.(type) {
+				case *ast.AssignStmt:
+					for _, l := range v.Lhs {
+						if fld, ok := isFive(l); ok {
+							writes = append(writes, label+": "+fld+" "+v.Tok.String()+" "+strings.Join(func() []string {
+								var r []string
+								for _, e := range v.Rhs {
+									r = append(r, x.src(e))
+								}
+								return r
+							}(), ", "))
+						}
+					}
+				case *ast.IncDecStmt:
+					if fld, ok := isFive(v.X); ok {
+						writes = append(writes, label+": "+fld+v.Tok.String())
+					}
+				case *ast.UnaryExpr:
+					if v.Op == token.AND && !registered[v] {
+						if fld, ok := isFive(v.X); ok {
+							writes = append(writes, label+": &"+fld+" taken")
+						}
+					}
+				}
+				return true
+			})
+		}
+	}
+	sort.Strings(writes)
+	sort.Strings(flagNames)
+	x.defStrList("configWritesToTheFive", writes)
+	x.defStrList("fiveFlagNames", flagNames)
 }
